@@ -385,8 +385,21 @@ def main(tier='quick', seed=0, part=None):
     cfgs = configs(tier)
     if part:
         cfgs = [c for c in cfgs if part in cfg_key(c)]
-    for res in par.pmap(run_cfg, [(c, bound, cap)
-                                  for c in par.shuffled(cfgs, seed)]):
+    jobs = [(c, bound, cap) for c in par.shuffled(cfgs, seed)]
+    deep = []
+    if tier == 'quick' and not part:
+        # a few scenarios at the thorough tier's bound: an application call
+        # that looks a socket up while the link thread removes it needs two
+        # preemptions (found by the thorough tier, see DESIGN 7.2)
+        traced = sorted(trace.ALL)
+        for role in ('initiator', 'target'):
+            for op in ('dlc_close', 'dlc_send_window'):
+                deep.append(dict(role=role, cause='disc', at=2, ops=[op],
+                                 gate='start', traced=traced))
+            deep.append(dict(role=role, cause='disc', at=2, ops=[],
+                             server='snep', traced=traced))
+        jobs = [(c, 2, 60000) for c in deep] + jobs
+    for res in par.pmap(run_cfg, jobs):
         run.merge(res)
     execs = run.counters.get('executions', 0)
     capped = run.counters.get('capped_configs', 0)
@@ -409,6 +422,7 @@ def main(tier='quick', seed=0, part=None):
         transitions=run.counters.get('choice_points', 0),
         traces_validated_against_impl=execs,
         scenarios=len(cfgs), deviation_bound_completed=bound,
+        scenarios_with_bound_2=len(deep) if tier == 'quick' else len(cfgs),
         execution_cap_per_scenario=cap, scenarios_capped=capped,
         traced_fields=sorted(trace.ALL)),
         exhaustive=capped == 0)
